@@ -168,6 +168,15 @@ COMMUTATIVE = {'add', 'mul', 'eq', 'ne', 'bitand', 'bitor', 'bitxor'}
 CMP_FLIP = {'gt': 'lt', 'ge': 'le'}
 
 
+class VBlock(int):
+    """a block id that additionally carries `cond` = (operand, polarity): the synthetic Some / None exit of `cond.then_some(v)`,
+    `cond.then(|| v)` returned as the function's value.  It IS the block (every CFG query works); the guard queries add the condition."""
+    def __new__(cls, bb, cond):
+        o = int.__new__(cls, bb)
+        o.cond = cond
+        return o
+
+
 class Site:
     __slots__ = ('body', 'bb', 'idx', 'kind', 'data')
 
